@@ -15,7 +15,7 @@ from .c03 import gen_tree, TCH
 LEAN_MODULE = 'QbeeModel.Props.C01'
 REQUIRED = ['exit_do_leaves_this_loop', 'for_passes_exit_do', 'exit_for_leaves_this_loop', 'do_passes_exit_for', 'execList_stops',
             'for_empty_range', 'while_false_skips', 'do_until_nonzero_skips', 'call_byval_preserves_caller', 'call_writes_only_refs',
-            'call_ref_gets_callee_value', 'exit_sub_returns', 'end_in_sub_ends_program', 'call_unfold', 'more_fuel_same_result', 'result_independent_of_fuel', 'add_is_machine_add', 'sub_is_machine_sub', 'mul_is_machine_mul', 'idiv_is_machine_idiv', 'mod_is_machine_mod', 'lt_is_machine_cmp_lt', 'gt_is_machine_cmp_gt', 'le_is_machine_cmp_le', 'ge_is_machine_cmp_ge', 'eq_is_machine_cmp_eq', 'ne_is_machine_cmp_ne'] + ['allSpecOk_true', 'decodeTableOk_true', 'compileC_correct', 'idiv_is_truncation', 'floored_division_was_wrong']
+            'call_ref_gets_callee_value', 'exit_sub_returns', 'end_in_sub_ends_program', 'call_unfold', 'more_fuel_same_result', 'result_independent_of_fuel', 'add_is_machine_add', 'sub_is_machine_sub', 'mul_is_machine_mul', 'idiv_is_machine_idiv', 'mod_is_machine_mod', 'lt_is_machine_cmp_lt', 'gt_is_machine_cmp_gt', 'le_is_machine_cmp_le', 'ge_is_machine_cmp_ge', 'eq_is_machine_cmp_eq', 'ne_is_machine_cmp_ne', 'idx_out_of_range_traps', 'assign_out_of_range_traps', 'elemCell_injective', 'assignIdx_then_idx', 'assignIdx_frame'] + ['allSpecOk_true', 'decodeTableOk_true', 'compileC_correct', 'idiv_is_truncation', 'floored_division_was_wrong']
 KIND = {'i': 'i', 'l': 'l', 's': 's', 'd': 'd', 'str': 't'}
 
 
